@@ -2,15 +2,30 @@
 
 mod builder;
 
+#[cfg(not(noodles_verif))]
 use std::{
     io::{self, Write},
     mem,
     num::NonZero,
     thread::{self, JoinHandle},
 };
+#[cfg(noodles_verif)]
+use std::{
+    io::{self, Write},
+    mem,
+    num::NonZero,
+};
 
 use bytes::BytesMut;
+#[cfg(not(noodles_verif))]
 use crossbeam_channel::{Receiver, Sender};
+
+#[cfg(noodles_verif)]
+use crate::verif::{
+    crossbeam_channel::{self, Receiver, Sender},
+    rayon,
+    thread::{self, JoinHandle},
+};
 
 pub use self::builder::Builder;
 use super::writer::{CompressionLevelImpl, MAX_BUF_SIZE};
@@ -139,6 +154,8 @@ where
         let compression_level = self.compression_level;
 
         rayon::spawn(move || {
+            #[cfg(noodles_verif)]
+            crate::verif::gate("deflate");
             let result = compress(&src, compression_level);
             buffered_tx.send(result).ok();
         });
